@@ -119,11 +119,16 @@ def search(job):
              {"properties": {"k": {"not": {"type": "integer"}, "allOf": [{"type": "integer"}]}}}),
             ({"definitions": {"p": {"type": "integer"}}, "properties": {"k": {"oneOf": [{"$ref": "#/definitions/p"}, {"type": "string"}], "anyOf": [{"$ref": "#/definitions/p"}]}}},
              {"properties": {"k": {"oneOf": [{"type": "integer"}, {"type": "string"}], "anyOf": [{"type": "integer"}]}}}),
+            # a cross-document reference consulted through is_valid() (not / contains), then a sibling with a same-document reference
+            ({"not": {"$ref": "http://ex.org/other.json#/definitions/t"}, "properties": {"k": {"$ref": "#/definitions/small"}}, "definitions": {"small": {"type": "integer"}}},
+             {"not": {"type": "integer"}, "properties": {"k": {"type": "integer"}}}),
+        ] + ([({"properties": {"k": {"contains": {"$ref": "http://ex.org/other.json#/definitions/t"}, "items": {"$ref": "#/definitions/small"}}}, "definitions": {"small": {"type": "string"}}},
+               {"properties": {"k": {"contains": {"type": "integer"}, "items": {"type": "string"}}}})] if d >= 6 else []) + [
             # recursion through '#' and through a definition
             ({"properties": {"k": {"$ref": "#"}}, "type": "object"}, None),
             ({"definitions": {"node": {"type": "object", "properties": {"next": {"$ref": "#/definitions/node"}, "v": {"type": "integer"}}}}, "$ref": "#/definitions/node"}, None),
         ]
-        insts = [{"k": 1}, {"k": "s"}, {"k": {"j": 1}}, {"k": {"j": "s"}}, {"k": True, "l": "x"}, {"k": {"k": {"k": 5}}}, {"next": {"next": {"v": "x"}}, "v": 1}, 5]
+        insts = [{"k": ["a", 1]}, {"k": [1, "a", 2]}, {"k": 1}, {"k": "s"}, {"k": {"j": 1}}, {"k": {"j": "s"}}, {"k": True, "l": "x"}, {"k": {"k": {"k": 5}}}, {"next": {"next": {"v": "x"}}, "v": 1}, 5]
         for with_ref, inlined in cases + store_cases:
             for inst in insts:
                 tried += 1
